@@ -19,7 +19,8 @@ RULE = ('random sets of 1..6 trajectories of mutually different lengths (includi
         'concatenation of the per-trajectory results and permute accordingly; T of the set and of the cut '
         'set equal the exact model (count matrices differ exactly by the straddling pairs). '
         'Non-trivial: >= 2 trajectories of different lengths.'
-        ' Added classes: arrays of different integer widths with > 128 states, lumped objects under reordering (reference curves = those of the plain macro trajectories), one StateTraj object shared by a sequence of analyses (coring first), > 256 trajectories / zero-length members / > 64 states, a trajectory of > 2^16 frames cut at 65536/65537.')
+        ' Added classes: arrays of different integer widths with > 128 states, lumped objects under reordering (reference curves = those of the plain macro trajectories), one StateTraj object shared by a sequence of analyses (coring first), > 256 trajectories / zero-length members / > 64 states, a trajectory of > 2^16 frames cut at 65536/65537.'
+        ' Later: implied-timescale rows for lag lists in any order, the junction scenario for the sampling chain, equal-length sets also as one 2-d array, length sets whose first length is their mean.')
 TRUSTED = ['float comparison of aggregated outputs at 1e-12']
 ASSUMPTIONS = ['labels within +-2^29']
 BATCH = 150
